@@ -342,19 +342,25 @@ impl Findings {
     fn push(&mut self, sig: impl Into<String>, what: impl Into<String>) {
         self.0.push(Fail::new(sig, what));
     }
-    /// First failure that is not a registered finding, else the first registered one.
+    /// A failure that is not a registered finding wins; else the first registered one is returned and the other
+    /// registered findings of the case are recorded as observed too.
     fn verdict(self, run: &Run) -> CaseResult {
-        let mut first_known = None;
-        for f in self.0 {
-            if !run.is_known(&f.signature) {
-                return Err(f);
-            }
-            if first_known.is_none() {
-                first_known = Some(f);
-            }
+        let mut v = self.0;
+        if let Some(i) = v.iter().position(|f| !run.is_known(&f.signature)) {
+            return Err(v.swap_remove(i));
         }
-        match first_known {
-            Some(f) => Err(f),
+        let mut it = v.into_iter();
+        match it.next() {
+            Some(first) => {
+                let mut seen = vec![first.signature.clone()];
+                for f in it {
+                    if !seen.contains(&f.signature) {
+                        seen.push(f.signature.clone());
+                        run.fail("embed_remove", &f, serde_json::Value::Null);
+                    }
+                }
+                Err(first)
+            }
             None => Ok(()),
         }
     }
